@@ -349,21 +349,16 @@ func (f *ontFam) Exec(r *hx.Run, op []string) string {
 		h64, err1 := strconv.ParseUint(op[1], 10, 32)
 		nonce, err2 := strconv.ParseUint(op[2], 10, 64)
 		payload, ok1 := ontPayload(op[3])
-		bks, ok2 := parseIdx(op[4])
+		bks, wire, ok2 := parseBks(op[4])
 		specs, ok3 := parseSigs(op[5])
 		if err1 != nil || err2 != nil || !ok1 || !ok2 || !ok3 {
 			return "bad-op"
 		}
 		h := uint32(h64)
 		hd := ontHeader(h, nonce, payload)
-		for _, i := range bks {
-			hd.Bookkeepers = append(hd.Bookkeepers, ontKeys[i].pub)
-		}
 		hash := hd.Hash()
 		hd.SigData = ontMakeSigs(specs, hash[:])
-		sink := ocommon.NewZeroCopySink(nil)
-		hd.Serialization(sink)
-		p := &hscommon.SyncBlockHeaderParam{ChainID: ontChainID, Headers: [][]byte{sink.Bytes()}}
+		p := &hscommon.SyncBlockHeaderParam{ChainID: ontChainID, Headers: [][]byte{ontHeaderWire(hd, wire)}}
 		ps := common.NewZeroCopySink(nil)
 		p.Serialization(ps)
 		ns := newNative(f.db, ps.Bytes())
@@ -405,22 +400,17 @@ func (f *ontFam) Exec(r *hx.Run, op []string) string {
 			h64, err1 := strconv.ParseUint(q[0], 10, 32)
 			nonce, err2 := strconv.ParseUint(q[1], 10, 64)
 			payload, ok1 := ontPayload(q[2])
-			bks, ok2 := parseIdx(q[3])
+			_, wire, ok2 := parseBks(q[3])
 			specs, ok3 := parseSigs(q[4])
 			if err1 != nil || err2 != nil || !ok1 || !ok2 || !ok3 {
 				return "bad-op"
 			}
 			hd := ontHeader(uint32(h64), nonce, payload)
 			hd.PrevBlockHash = prevHash // the headers of a batch are hash-linked
-			for _, i := range bks {
-				hd.Bookkeepers = append(hd.Bookkeepers, ontKeys[i].pub)
-			}
 			hash := hd.Hash()
 			prevHash = hash
 			hd.SigData = ontMakeSigs(specs, hash[:])
-			sink := ocommon.NewZeroCopySink(nil)
-			hd.Serialization(sink)
-			p.Headers = append(p.Headers, sink.Bytes())
+			p.Headers = append(p.Headers, ontHeaderWire(hd, wire))
 			heights = append(heights, uint32(h64))
 			f.seenH[uint32(h64)] = true
 		}
@@ -446,7 +436,7 @@ func (f *ontFam) Exec(r *hx.Run, op []string) string {
 			return "bad-op"
 		}
 		h64, err1 := strconv.ParseUint(op[1], 10, 32)
-		bks, ok2 := parseIdx(op[2])
+		bks, wire, ok2 := parseBks(op[2])
 		specs, ok3 := parseSigs(op[3])
 		if err1 != nil || !ok2 || !ok3 {
 			return "bad-op"
@@ -460,9 +450,9 @@ func (f *ontFam) Exec(r *hx.Run, op []string) string {
 		msg.SigData = ontMakeSigs(specs, hash[:])
 		sink := ocommon.NewZeroCopySink(nil)
 		msg.Serialization(sink)
-		sink.WriteVarUint(uint64(len(bks)))
-		for _, i := range bks {
-			sink.WriteVarBytes(keypair.SerializePublicKey(ontKeys[i].pub))
+		sink.WriteVarUint(uint64(len(wire)))
+		for _, w := range wire {
+			sink.WriteVarBytes(w)
 		}
 		nsq := newNative(f.db, nil)
 		_, errStored := ont.GetCrossChainMsg(nsq, ontChainID, h)
@@ -582,7 +572,97 @@ func joinInts(a []int) string {
 
 func ceilThird(n int) int { return (n + 2) / 3 }
 
-func idxList(a []int) string { return joinInts(a) }
+// A signer reference is a pool index plus a wire encoding of the SAME public key (index + encStep*code):
+// code 0 canonical (33-byte compressed), 1 "a" = 0x12|curve|compressed, 2 "u" = 0x04|X|Y, 3 "v" = 0x12|curve|0x04|X|Y,
+// 4 "t" = compressed followed by one surplus byte. All of them decode to the same key (same PubkeyID).
+const encStep = 100
+
+var encLetters = []string{"", "a", "u", "v", "t"}
+
+func idxList(a []int) string {
+	if len(a) == 0 {
+		return "-"
+	}
+	s := make([]string, len(a))
+	for i, v := range a {
+		s[i] = strconv.Itoa(v%encStep) + encLetters[v/encStep]
+	}
+	return strings.Join(s, ",")
+}
+
+// ontWireKey returns the requested wire form of pool key i (only P-256 ECDSA keys have alternative forms).
+func ontWireKey(i int, code int) ([]byte, bool) {
+	canon := keypair.SerializePublicKey(ontKeys[i].pub)
+	if code == 0 {
+		return canon, true
+	}
+	pk, ok := ontKeys[i].pub.(*ec.PublicKey)
+	if !ok || pk.Algorithm != ec.ECDSA || len(canon) != 33 {
+		return nil, false
+	}
+	unc := ec.EncodePublicKey(pk.PublicKey, false)
+	switch code {
+	case 1:
+		return append([]byte{byte(keypair.PK_ECDSA), keypair.P256}, canon...), true
+	case 2:
+		return unc, true
+	case 3:
+		return append([]byte{byte(keypair.PK_ECDSA), keypair.P256}, unc...), true
+	case 4:
+		return append(append([]byte{}, canon...), 0x00), true
+	}
+	return nil, false
+}
+
+// parseBks parses a signer list with optional encoding letters: pool indices and wire forms.
+func parseBks(s string) ([]int, [][]byte, bool) {
+	if s == "-" {
+		return nil, nil, true
+	}
+	var idx []int
+	var wire [][]byte
+	for _, p := range strings.Split(s, ",") {
+		code := 0
+		if n := len(p); n > 1 {
+			for c, l := range encLetters {
+				if c > 0 && p[n-1:] == l {
+					code, p = c, p[:n-1]
+				}
+			}
+		}
+		v, err := strconv.Atoi(p)
+		if err != nil || v < 0 || v >= ontPool {
+			return nil, nil, false
+		}
+		w, ok := ontWireKey(v, code)
+		if !ok {
+			return nil, nil, false
+		}
+		idx = append(idx, v)
+		wire = append(wire, w)
+	}
+	return idx, wire, true
+}
+
+// ontHeaderWire serializes a header with the signer keys in the given wire forms.
+func ontHeaderWire(hd *otypes.Header, wire [][]byte) []byte {
+	h0 := *hd
+	h0.Bookkeepers, h0.SigData = nil, nil
+	s0 := ocommon.NewZeroCopySink(nil)
+	h0.Serialization(s0)
+	b := s0.Bytes()
+	sink := ocommon.NewZeroCopySink(nil)
+	sink.WriteBytes(b[:len(b)-2]) // the unsigned part (the two trailing bytes are the empty key and signature counts)
+	sink.WriteVarUint(uint64(len(wire)))
+	for _, w := range wire {
+		sink.WriteVarBytes(w)
+	}
+	sink.WriteVarUint(uint64(len(hd.SigData)))
+	for _, sg := range hd.SigData {
+		sink.WriteVarBytes(sg)
+	}
+	return sink.Bytes()
+}
 
 func goodSigs(bks []int) string {
 	if len(bks) == 0 {
@@ -590,7 +670,7 @@ func goodSigs(bks []int) string {
 	}
 	s := make([]string, len(bks))
 	for i, k := range bks {
-		s[i] = "g" + strconv.Itoa(k)
+		s[i] = "g" + strconv.Itoa(k%encStep)
 	}
 	return strings.Join(s, ",")
 }
@@ -706,12 +786,39 @@ func signerShape(r *hx.Run, tracked []int, shape int) (bks []int, sigs string, l
 		s := strings.Split(goodSigs(bks), ",")
 		s[0] = "g" + strconv.Itoa(tracked[r.Rng.Intn(n)])
 		return bks, strings.Join(s, ","), "sig-unlisted"
-	default: // empty list
+	case 14: // empty list
 		return nil, "-", "empty"
+	case 15: // ONE tracked key listed up to the bound under different wire encodings, its signature each time
+		var p256 []int
+		for _, t := range tracked {
+			if t != 12 && t != 13 {
+				p256 = append(p256, t)
+			}
+		}
+		if len(p256) == 0 {
+			return signerShape(r, tracked, 3)
+		}
+		k := p256[r.Rng.Intn(len(p256))]
+		codes := r.Rng.Perm(len(encLetters))
+		for i := 0; i < q; i++ {
+			bks = append(bks, k+encStep*codes[i%len(codes)])
+		}
+		if q < 2 {
+			return bks, goodSigs(bks), "alt-encoding-single"
+		}
+		return bks, goodSigs(bks), "dup-encodings"
+	default: // a genuine distinct quorum whose keys arrive in alternative wire encodings
+		bks = pickSubset(r, tracked, q+r.Rng.Intn(n-q+1))
+		for i, k := range bks {
+			if k != 12 && k != 13 {
+				bks[i] = k + encStep*r.Rng.Intn(len(encLetters))
+			}
+		}
+		return bks, goodSigs(bks), "alt-encodings-distinct"
 	}
 }
 
-const nShapes = 15
+const nShapes = 17
 
 func (f *ontFam) Gen(r *hx.Run) {
 	if f.stream == "msg" {
